@@ -4,6 +4,10 @@ import json, os
 HERE = os.path.dirname(os.path.dirname(os.path.abspath(__file__)))
 
 CLAIMED = {
+ "C01": dict(level="exploration", ref="§4 C01",
+   technique="deterministic simulation: seeded DAG-building clients over shared leaves under a call-granularity scheduler; tree-unfolding twin run, exact finite differences on linear programs, additivity/order twins, bounded liveness in simulated steps (yield count) per back-propagation",
+   text="Seeded search over operation DAGs (diamond chains, ladders, fan-outs, random reuse; 1-4 graphs sharing leaves; scheduler-chosen construction interleaving and back-propagation order). Each run compares the real back-propagation with a twin in which every shared sub-expression is recomputed per consumer (so no accumulation happens inside the library), with exact finite differences for linear programs, with per-graph solo runs and the reversed order, and bounds the work of each back-propagation in simulated steps. Sampling, not proof.",
+   note="Trusted: every single-consumer backward rule (C02/C07 are not applicable to this technique), float addition in the harness, the yield-count clock of the instrumented copy. Operands are kept away from non-differentiable points."),
  "C19": dict(level="fault_enumeration", ref="§4 C19",
    technique="deterministic simulation: seeded call histories on 1-3 metric instances with injected invalid calls (enumerated over every position in thorough), two-integer reference model checked after every call, re-partition twin",
    text="Seeded search over Accumulate/Result histories with invalid-call faults; every generated history is compared call by call against a two-integer model, rejected calls must leave the metric's reflected state unchanged, and the same data re-delivered under another partition must give the identical result. Thorough enumerates every fault kind at every position of each history. Sampling over histories, exhaustive over fault placement within a history.",
